@@ -128,4 +128,54 @@ pub fn drive(args: &[String]) {
         }
         id += 1;
     }
+    // ---- large flat areas: one colour on tens of thousands of pixels, the palette large enough for the image not to be
+    // subsampled.  Too large to hand to TLC pixel by pixel: the record carries the distinct source colours with their
+    // counts and, for each, the set of palette colours its pixels were mapped to.
+    let flats: [(usize, usize, usize, [u8; 3], usize); 4] = [
+        (240, 300, 512, [255, 255, 255], 65795),
+        (400, 340, 1000, [127, 254, 60], 134000),
+        (260, 260, 400, [255, 0, 255], 66500),
+        (250, 280, 700, [254, 253, 129], 69000),
+    ];
+    for (fi, (h, w, k, main, nmain)) in flats.iter().copied().enumerate() {
+        for dither in [false, true] {
+            let others = [RGBA::new(0, 0, 0, 255), RGBA::new(1, 2, 3, 255), RGBA::new(200, 10, 90, 255)];
+            let mainc = RGBA::new(main[0], main[1], main[2], 255);
+            let mut i = 0usize;
+            let img = Image::from(SurfaceOwned::new_with(Size::new(h, w), |_| {
+                i += 1;
+                if i <= nmain {
+                    mainc
+                } else {
+                    others[(i + fi) % (1 + fi % 3)]
+                }
+            }));
+            let res = guarded(|| img.quantize(k, dither, None));
+            let mut cols: std::collections::BTreeMap<Vec<u8>, usize> = Default::default();
+            for c in img.iter() {
+                *cols.entry(c3(*c)).or_default() += 1;
+            }
+            let colsj: Vec<Vec<usize>> = cols.iter().map(|(c, n)| vec![c[0] as usize, c[1] as usize, c[2] as usize, *n]).collect();
+            match res {
+                Ok(Some((pal, qimg))) => {
+                    let mut maps: std::collections::BTreeMap<Vec<u8>, std::collections::BTreeSet<Vec<u8>>> = Default::default();
+                    let mut inside = true;
+                    for (src, ix) in img.iter().zip(qimg.iter()) {
+                        match pal.colors().get(*ix) {
+                            Some(c) => {
+                                maps.entry(c3(*src)).or_default().insert(c3(*c));
+                            }
+                            None => inside = false,
+                        }
+                    }
+                    let mapsj: Vec<Vec<Vec<u8>>> = cols.keys().map(|c| maps.get(c).map(|s| s.iter().cloned().collect()).unwrap_or_default()).collect();
+                    out.rec(&json!({"id": id, "t": "flat", "w": w, "h": h, "k": k, "dither": dither, "some": true, "cols": colsj, "maps": mapsj, "np": pal.colors().len(),
+                                    "inside": inside, "iw": qimg.width(), "ih": qimg.height(), "panic": ""}));
+                }
+                Ok(None) => out.rec(&json!({"id": id, "t": "flat", "w": w, "h": h, "k": k, "dither": dither, "some": false, "cols": colsj, "maps": [], "np": 0, "inside": true, "iw": 0, "ih": 0, "panic": ""})),
+                Err(m) => out.rec(&json!({"id": id, "t": "flat", "w": w, "h": h, "k": k, "dither": dither, "some": false, "cols": colsj, "maps": [], "np": 0, "inside": true, "iw": 0, "ih": 0, "panic": m})),
+            }
+            id += 1;
+        }
+    }
 }
